@@ -218,6 +218,15 @@ func (c *Ctx) Sharded(n int, onCrash func(ci CrashInfo, s *Stats), args ...strin
 	total := NewStats()
 	var mu sync.Mutex
 	var wg sync.WaitGroup
+	// A worker polls the deadline between cases. One that is still running long
+	// after it (5 minutes, or half the budget if that is more) is stuck inside a
+	// case: it is made to dump its goroutines and is killed, and is then handled
+	// like any other dead worker (attributed to its announced case, or a harness error).
+	grace := time.Until(c.Deadline) / 2
+	if grace < 5*time.Minute {
+		grace = 5 * time.Minute
+	}
+	killAt := c.Deadline.Add(grace)
 	for i := 0; i < n; i++ {
 		wg.Add(1)
 		go func(shard int) {
@@ -236,7 +245,31 @@ func (c *Ctx) Sharded(n int, onCrash func(ci CrashInfo, s *Stats), args ...strin
 				var out, errb bytes.Buffer
 				cmd.Stdout = &out
 				cmd.Stderr = &errb
-				runErr := cmd.Run()
+				runErr := cmd.Start()
+				if runErr == nil {
+					done := make(chan struct{})
+					note := make(chan string, 1)
+					go func() {
+						select {
+						case <-done:
+						case <-time.After(time.Until(killAt)):
+							note <- fmt.Sprintf("OVERRUN: worker %d still running %v after the deadline; goroutine dump requested, then killed\n", shard, grace)
+							cmd.Process.Signal(syscall.SIGQUIT)
+							select {
+							case <-done:
+							case <-time.After(20 * time.Second):
+								cmd.Process.Kill()
+							}
+						}
+					}()
+					runErr = cmd.Wait()
+					close(done)
+					select {
+					case msg := <-note:
+						errb.WriteString("\n" + msg)
+					default:
+					}
+				}
 				st, ok := parseResult(out.Bytes())
 				if ok {
 					mu.Lock()
@@ -327,7 +360,7 @@ type Finding struct {
 	Property string `json:"property"`
 	Key      string `json:"key"`
 	What     string `json:"what"`
-	Fixed    string `json:"fixed,omitempty"` // "fixed: property=<id> <commit> <what>" entries suppress nothing
+	Fixed    string `json:"fixed,omitempty"`  // "fixed: property=<id> <commit> <what>" entries suppress nothing
 	Prefix   bool   `json:"prefix,omitempty"` // Key names a call site: it matches every case key that starts with it
 }
 
